@@ -64,15 +64,30 @@ def parse_op(op):
     return op[0], (op[1] if len(op) > 1 else None), (op[2] if len(op) > 2 else None), alt, wrap
 
 
-def ifs_expr(ids, wrap, name="I%d"):
+def arg_namer(case, prefix=""):
+    """argument number -> source text: interface a; len(ifaces) = Interface itself (when the case
+    has "root"); from there on implementedBy(class)"""
+    n = len(case["ifaces"])
+    ni = n + (1 if case.get("root") else 0)
+
+    def name(a):
+        if a < n:
+            return "%sI%d" % (prefix, a)
+        if a < ni:
+            return "Interface"
+        return "implementedBy(%sC%d)" % (prefix, a - ni)
+    return name
+
+
+def ifs_expr(ids, wrap, name):
     """Source text of an interface argument list, with the optional Declaration(...) group."""
     parts, i = [], 0
     while i < len(ids):
         if wrap and i == wrap[0] and wrap[1] > 0:
-            parts.append("Declaration(%s)" % ", ".join(name % j for j in ids[i:i + wrap[1]]))
+            parts.append("Declaration(%s)" % ", ".join(name(j) for j in ids[i:i + wrap[1]]))
             i += wrap[1]
         else:
-            parts.append(name % ids[i])
+            parts.append(name(ids[i]))
             i += 1
     return ", ".join(parts)
 
@@ -84,6 +99,7 @@ def module_source(case):
          "from zope.interface import alsoProvides, noLongerProvides, directlyProvidedBy",
          "from zope.interface.declarations import Declaration",
          ""]
+    name = arg_namer(case)
     builtin = case.get("builtin", {})
     idef, cdef = case.get("idef", {}), case.get("cdef", {})
     oldstyle, meta, falsy = case.get("oldstyle", {}), set(case.get("meta", [])), case.get("falsy")
@@ -124,18 +140,18 @@ def module_source(case):
         kind, tgt, arg, alt, wrap = parse_op(op)
         body = None
         if kind == "impl":
-            ifs = ifs_expr(arg, wrap)
+            ifs = ifs_expr(arg, wrap, name)
             body = ("implementer(%s)(C%d)" % (ifs, tgt)) if alt else ("classImplements(C%d, %s)" % (tgt, ifs))
         elif kind == "only":
-            ifs = ifs_expr(arg, wrap)
+            ifs = ifs_expr(arg, wrap, name)
             body = ("implementer_only(%s)(C%d)" % (ifs, tgt)) if alt else ("classImplementsOnly(C%d, %s)" % (tgt, ifs))
         elif kind == "first":
-            body = "classImplementsFirst(C%d, I%d)" % (tgt, arg)
+            body = "classImplementsFirst(C%d, %s)" % (tgt, name(arg))
         elif kind == "cprov":
-            ifs = ifs_expr(arg, wrap)
+            ifs = ifs_expr(arg, wrap, name)
             body = ("provider(%s)(C%d)" % (ifs, tgt)) if alt else ("directlyProvides(C%d, %s)" % (tgt, ifs))
         elif kind == "cap":
-            ifs = ifs_expr(arg, wrap)
+            ifs = ifs_expr(arg, wrap, name)
             body = ("directlyProvides(C%d, directlyProvidedBy(C%d), %s)" % (tgt, tgt, ifs)) if alt \
                 else ("alsoProvides(C%d, %s)" % (tgt, ifs))
         elif kind == "cnl":
@@ -153,13 +169,15 @@ def module_source(case):
 class Numbering:
     def __init__(self, mod, case):
         self.ifaces = [getattr(mod, "I%d" % i) for i in range(len(case["ifaces"]))]
+        if case.get("root"):
+            self.ifaces.append(Interface)       # Interface itself is the last interface of the world
         self.classes = [getattr(mod, "C%d" % c) for c in range(len(case["classes"]))]
         self.by_id = {id(x): n for n, x in enumerate(self.ifaces)}
 
     def num(self, x):
-        if x is Interface:
-            return 9
-        return self.by_id.get(id(x), 10)
+        if id(x) in self.by_id:
+            return self.by_id[id(x)]
+        return 9 if x is Interface else 10
 
     def lst(self, it):
         return [self.num(x) for x in it]
@@ -270,14 +288,17 @@ def run_case_(k, case, tmpdir, mode):
         for j, v in enumerate(attrs):
             setattr(o, "a%d" % j, v)
         insts.append(o)
+    def arg_obj(a):
+        return N.ifaces[a] if a < len(N.ifaces) else implementedBy(N.classes[a - len(N.ifaces)])
+
     def args_of(ids, wrap):
         out, i = [], 0
         while i < len(ids):
             if wrap and i == wrap[0] and wrap[1] > 0:
-                out.append(D.Declaration(*[N.ifaces[j] for j in ids[i:i + wrap[1]]]))
+                out.append(D.Declaration(*[arg_obj(j) for j in ids[i:i + wrap[1]]]))
                 i += wrap[1]
             else:
-                out.append(N.ifaces[ids[i]])
+                out.append(arg_obj(ids[i]))
                 i += 1
         return out
 
@@ -318,7 +339,7 @@ def run_case_(k, case, tmpdir, mode):
     for o, x in enumerate(insts):
         items.append(("inst", o, x))
 
-    allowed_globals = {(modname, "I%d" % i) for i in range(len(N.ifaces))}
+    allowed_globals = {(modname, "I%d" % i) for i in range(len(case["ifaces"]))} | {("zope.interface", "Interface")}
     allowed_strings = []
     for x in N.classes:
         allowed_globals.add((x.__module__, x.__qualname__))
@@ -389,7 +410,8 @@ def run_case_(k, case, tmpdir, mode):
              "cnames": [[x.__module__, x.__qualname__] for x in N.classes],
              "metas": {str(c): [type(x).__module__, type(x).__qualname__]
                        for c, x in enumerate(N.classes) if type(x) is not type}}
-    job = {"module": modname, "nif": len(N.ifaces), "ncl": len(N.classes), "items": job_items,
+    job = {"module": modname, "nif": len(case["ifaces"]), "root": bool(case.get("root")),
+           "ncl": len(N.classes), "items": job_items,
            "builtin": list(case.get("builtin", {}).values())}
     return {"names": names, "items": out_items}, job
 
